@@ -33,6 +33,12 @@ def _typed_coerce(
     return _coerce
 
 
+def _parse_bool(value: Any) -> bool:
+    if isinstance(value, (list, tuple, dict)):
+        raise ValueError('Boolean cannot represent value "%s"' % (value,))
+    return bool(value)
+
+
 _coerce_bool_node = _typed_coerce(bool, _ast.BooleanValue)
 
 
@@ -40,7 +46,7 @@ Boolean = ScalarType(
     "Boolean",
     description="The `Boolean` scalar type represents `true` or `false`.",
     serialize=bool,
-    parse=bool,
+    parse=_parse_bool,
     parse_literal=_coerce_bool_node,
 )
 
